@@ -191,7 +191,7 @@ def strategies(mode):
         if draw(st.integers(0, 3)) == 0 and nin:
             # standard bounds do not change the value (policy None); exercised lightly here
             p["inputs"][0]["b"] = {"k": "both", "lo": "1.0", "hi": "2.0"}
-        p["params"] = [{"v": draw(lit_cat(longcat, "param")), "entry": draw(st.booleans())}
+        p["params"] = [{"v": draw(lit_cat(longcat, "param")), "entry": draw(st.sampled_from([True, True, False]))}
                        for _ in range(draw(st.integers(0, 4)))]
         p["overrides"] = [[i, draw(lit(ndmax=12))] for i in range(len(p["params"])) if draw(st.booleans())]
         p["consts"] = [draw(lit_cat(longcat, "static")) for _ in range(draw(st.integers(0, 2)))]
@@ -204,6 +204,7 @@ def strategies(mode):
         p["post"] = None
         if draw(st.integers(0, 3)) == 0:
             p["post"] = [draw(st.sampled_from(["+=", "-=", "*=", "/="])), draw(expr37)]
+        p["aug"] = True  # every declared parameter / constant / static variable enters the result
         return p
 
     @st.composite
@@ -439,6 +440,22 @@ class Prepared:
             if op == "/=" and lo <= 1e-3 and hi >= -1e-3:
                 ex = ["add", ["call", "fabs", ex], ["num", "0.5"]]
             self.post = [op, ex]
+        self.aug = None
+        if p.get("aug"):
+            # `out += a0 * T + a1 * p + c0 * x ...`: no declared value is dead code, so that defaults,
+            # overrides and emitted literals always reach the returned value
+            terms = []
+            k = 0
+            for kind, n in (("par", len(p["params"])), ("cst", len(p["consts"])), ("sta", len(p["statics"]))):
+                for i in range(n):
+                    leaf = ["in", k % self.nin] if self.nin else ["num", "1.5"]
+                    terms.append(["mul", [kind, i], leaf])
+                    k += 1
+            if terms:
+                e = terms[0]
+                for t in terms[1:]:
+                    e = ["add", e, t]
+                self.aug = self._norm(e)[0]
         self.event = None
         ev = p.get("event")
         if ev:
@@ -570,6 +587,8 @@ class Prepared:
             b.append("  %s = %s;" % (self.out, self.cxx(self.res)))
         if self.post:
             b.append("  %s %s %s;" % (self.out, self.post[0], self.cxx(self.post[1])))
+        if self.aug:
+            b.append("  %s += %s;" % (self.out, self.cxx(self.aug)))
         if self.event:
             b.append("  %s += %s;" % (self.out, self.event_cxx()))
         b.append("}")
@@ -780,6 +799,12 @@ class Evaluator:
                 nv = ieee_div(v, b)
                 d = ((d + abs(nv) * db) / den) if den > 0.0 else INF
                 v = nv
+            if inexact:
+                d += ulp(v)
+        if getattr(P, "aug", None):
+            b, db = self.ev(P.aug)
+            inexact = (d + db) > 0.0
+            v, d = v + b, d + db
             if inexact:
                 d += ulp(v)
         if P.event:
